@@ -161,7 +161,12 @@ class CGenerator:
         rval_str = self._parenthesize_if(
             n.rvalue, lambda n: isinstance(n, c_ast.Assignment)
         )
-        return f"{self.visit(n.lvalue)} {n.op} {rval_str}"
+        # An assignment (or, through _visit_expr, a comma expression) on the
+        # left-hand side can only have been written in parentheses.
+        lval_str = self._parenthesize_if(
+            n.lvalue, lambda n: isinstance(n, c_ast.Assignment)
+        )
+        return f"{lval_str} {n.op} {rval_str}"
 
     def visit_IdentifierType(self, n: c_ast.IdentifierType) -> str:
         return " ".join(n.names)
